@@ -178,6 +178,62 @@ Proof.
 Qed.
 End StdFS2.
 
+(* ---------- the full Standard-side containment law for file bases, and for every base ---------- *)
+Section StdFS3.
+Variable shp : bool -> list N -> option spec_host.
+
+(* a scheme-less reference that starts with a Windows drive letter ("C|/y"): the file state takes the host of the base
+   and the EMPTY path *)
+Theorem std_contain_file_drive input sb : spec_valid sb -> has_opaque_path sb = false ->
+  list_eqb (su_scheme sb) str_file = true -> spec_scheme (spec_clean input) = None ->
+  starts_with_windows_drive_letter (spec_clean input) = true ->
+  exists su, spec_basic_url_parse shp input (Some sb) = BDone su /\ spec_same_front sb su
+    /\ su = file_tail (fkeep sb []) (spath_f (spec_clean input) [] []).
+Proof.
+  intros V Hop Hf Hs Hw.
+  destruct (spec_clean input) as [|c t] eqn:Ecl; [discriminate Hw|].
+  eexists. split; [exact (spec_file_rel_drive shp sb input c t Ecl Hs Hw Hop Hf)|]. split; [|reflexivity].
+  apply file_tail_front; [apply list_eqb_spec; exact Hf | exact V].
+Qed.
+
+(* file bases: the premise of C08_Std.std_contain (no scheme, no two leading slash characters, '\' counting) is enough *)
+Theorem std_contain_file_full input sb : spec_valid sb -> has_opaque_path sb = false ->
+  list_eqb (su_scheme sb) str_file = true -> std_contain_pre sb (spec_clean input) = true ->
+  exists su, spec_basic_url_parse shp input (Some sb) = BDone su /\ spec_same_front sb su.
+Proof.
+  intros V Hop Hf Hpre. unfold std_contain_pre in Hpre. apply andb_true_iff in Hpre. destruct Hpre as [H1 H2].
+  apply negb_true_iff in H1. apply negb_true_iff in H2.
+  pose proof (no_scheme_std input H1) as Hs.
+  pose proof Hf as Hsf. apply list_eqb_spec in Hsf. rewrite Hsf in H2. change (is_special_scheme str_file) with true in H2.
+  destruct (std_file_simple_pre (spec_clean input)) eqn:Esimple.
+  { destruct (std_contain_file_simple shp input sb V Hop Esimple) as (su & HS & HF & _). exists su. split; assumption. }
+  destruct (std_file_one_pre (spec_clean input)) eqn:Eone.
+  { destruct (std_contain_file_one shp input sb V Hop Hf Eone) as (su & HS & HF & _). exists su. split; assumption. }
+  destruct (starts_with_windows_drive_letter (spec_clean input)) eqn:Hw.
+  { destruct (std_contain_file_drive input sb V Hop Hf Hs Hw) as (su & HS & HF & _). exists su. split; assumption. }
+  assert (std_file_rel_pre (spec_clean input) = true) as Hrel.
+  { unfold std_file_rel_pre. rewrite Hs, Hw. cbn [andb negb].
+    unfold std_file_simple_pre in Esimple. unfold std_file_one_pre in Eone.
+    destruct (spec_clean input) as [|c t]; [discriminate Esimple|].
+    apply orb_false_iff in Esimple. destruct Esimple as [E63 E35]. rewrite E63, E35. cbn [negb]. rewrite !andb_true_r.
+    destruct (is_sl c) eqn:Esl; [|reflexivity]. exfalso.
+    cbn [andb] in Eone. destruct t as [|c2 r]; [discriminate Eone|]. cbn [no_sl_head] in Eone. apply negb_false_iff in Eone.
+    cbn [two_leading_slashes] in H2. unfold is_ref_slash in H2. rewrite !andb_true_r in H2.
+    unfold is_sl in Esl, Eone. rewrite Esl, Eone in H2. discriminate H2. }
+  destruct (std_contain_file_rel_any shp input sb V Hop Hf Hrel) as (su & HS & HF & _). exists su. split; assumption.
+Qed.
+
+(* EVERY base record that is not opaque - file or not: C08_Std.std_contain without its premise on the scheme *)
+Theorem std_contain_every input sb : spec_valid sb -> has_opaque_path sb = false ->
+  std_contain_pre sb (spec_clean input) = true ->
+  exists su, spec_basic_url_parse shp input (Some sb) = BDone su /\ spec_same_front sb su.
+Proof.
+  intros V Hop Hpre. destruct (list_eqb (su_scheme sb) str_file) eqn:Hf.
+  - exact (std_contain_file_full input sb V Hop Hf Hpre).
+  - exact (std_contain shp input sb V Hop Hf Hpre).
+Qed.
+End StdFS3.
+
 (* ---------- the crate's join agrees on C01's one-slash classes ---------- *)
 (* C01's classes for the scheme-less one-slash reference: in_class_file_rel_one (no drive letter carried: the text
    behind the separator does not start with a drive letter and the first segment of the base path is not a normalized
@@ -290,4 +346,32 @@ Lemma std_contain_file_slash_inhabited :
   /\ std_fs_agree_case (B "file://h.x/tmp/d?q")
        [(B "/p", B "file://h.x/p"); (B "\p", B "file://h.x/p"); (B "/a/../b?k#g", B "file://h.x/b?k#g")] = true
   /\ std_fs_agree_case (B "file:///C:/tmp/d?q") [(B "/p", B "file:///C:/p"); (B "/", B "file:///C:/")] = true.
+Proof. vm_compute. repeat split. Qed.
+
+(* any file base: every reference meets std_file_any_pre, the Standard succeeds, keeps scheme / host / port and gives the
+   expected href *)
+Definition std_fs_any_case (base : list N) (refs : list (list N * list N)) : bool :=
+  let idna := ex_idna_clean in
+  match spec_basic_url_parse (spec_host_parser idna) base None with
+  | BDone sb =>
+      negb (has_opaque_path sb) && list_eqb (su_scheme sb) str_file
+      && forallb (fun re =>
+           std_file_any_pre (spec_clean (fst re))
+           && match spec_basic_url_parse (spec_host_parser idna) (fst re) (Some sb) with
+              | BDone su =>
+                  list_eqb (su_scheme su) (su_scheme sb)
+                  && list_eqb (get_host spec_host_serializer su) (get_host spec_host_serializer sb)
+                  && list_eqb (get_port su) (get_port sb)
+                  && list_eqb (get_href spec_host_serializer su) (snd re)
+              | _ => false
+              end) refs
+  | _ => false
+  end.
+
+Lemma std_contain_file_any_inhabited :
+  std_fs_any_case (B "file:///C:") [(B "x", B "file:///C:/x"); (B "../y?k", B "file:///C:/y?k"); (B "", B "file:///C:");
+                                    (B "/p", B "file:///C:/p")] = true
+  /\ std_fs_any_case (B "file://h.x/a/C:") [(B "x", B "file://h.x/a/x"); (B "..", B "file://h.x/"); (B "/D:/z", B "file://h.x/D:/z")] = true
+  /\ std_fs_any_case (B "file://h.x/tmp/d?q") [(B "", B "file://h.x/tmp/d?q"); (B "?x", B "file://h.x/tmp/d?x");
+       (B "#f", B "file://h.x/tmp/d?q#f"); (B "/p", B "file://h.x/p"); (B "\p", B "file://h.x/p"); (B "e/f", B "file://h.x/tmp/e/f")] = true.
 Proof. vm_compute. repeat split. Qed.
